@@ -63,8 +63,11 @@ CHECKS = {
         "followed by a reader, and a reader inside one writer's protocol), judged by the oracle; the theorem side is ConcFile.lean: file_writers_serializable / "
         "file_writers_progress_harmless (for EVERY interleaving of the file steps of two FileCache.store writers of one key with private temporaries - and a progress-record writer that never says ready - and every prefix, a "
         "reader gets nothing, the old entry or the complete new one; other keys are untouched), file_steps_link_* (these step lists are the ones C16's crash replay validates against the code), file_shared_tmp_truncates "
-        "(refutation when two writers share a temporary = seeded change C12-1). Partial: the file-step theorem covers FileCache writers with an atomic reader; StoreCache on FileStore and a multi-step reader are explored by the "
-        "file-operation schedules only."),
+        "(refutation when two writers share a temporary = seeded change C12-1). The same for StoreCache on a FileStore (ConcFileT.lean, directory-tree model): tree_writers_serializable / tree_writers_progress_harmless / "
+        "tree_writer_and_progress (ANY initial tree, any path, every interleaving and prefix: old entry, miss, or the complete new one; every other path reads as before), "
+        "tree_steps_link_run (link to C16's replay-validated lists, no hypothesis), tree_shared_tmp_truncates. Partial: the file-step theorems have an atomic reader "
+        "(a reader pre-empted between its metadata read and its data read), more than one progress writer and a concurrent remover are explored by the file-operation "
+        "schedules only."),
   note=("Trusted: Lean kernel; the evaluator model (as C01/C04) and its mechanical oracle-world translation EvalO.lean (harness/gen_evalo.py --check on every run); Conc.lean's atomicity: one cache operation is one step, "
         "Python threads are sequentially consistent at that granularity; the harness scheduler (semaphores, one runnable thread at a time); hypotheses Closed/CanonOK as in C04 (C02 round trip); known finding "
         "rtq-ambiguous-text (shared with C04); the defect found by this check (a metadata-only 'ready' record under the result key) is fixed in /repo (cb22d87)."),
